@@ -196,6 +196,28 @@ JudgePath(rec) ==
        ELSE TRUE
 
 ----------------------------------------------------------------------------
+\* kind "pathto": best paths traced from a custom start cell (matrix row rs, column cs): the path must be
+\* an admissible partial path ending at pair (rs-1, cs-1) whose cost is the cell-wise optimum there
+PathToClause(c, M, p, rs, cs) ==
+    IF ~(rs \in 1..L1(c) /\ cs \in 1..L2(c)) THEN "start-cell-outside-the-matrix"
+    ELSE IF IsInf(OptTo(M, rs - 1, cs - 1)) THEN "ok"      \* nothing is promised for unreachable cells
+    ELSE IF Len(p) = 0 THEN "empty"
+    ELSE IF \E q \in 1..Len(p) : ~(p[q][1] \in 0..(L1(c) - 1) /\ p[q][2] \in 0..(L2(c) - 1)) THEN "range"
+    ELSE IF \E q \in 1..(Len(p) - 1) : ~IsStep(p[q], p[q + 1]) THEN "steps"
+    ELSE IF \E q \in 1..Len(p) : ~InBand(c, p[q][1], p[q][2]) THEN "band"
+    ELSE IF ~StartOK(c, p[1][1], p[1][2]) THEN "start"
+    ELSE IF p[Len(p)] # <<rs - 1, cs - 1>> THEN "end-not-the-start-cell"
+    ELSE IF PathCost(c, p) # OptTo(M, rs - 1, cs - 1) THEN "cost"
+    ELSE "ok"
+
+JudgePathTo(rec) ==
+    LET c == rec.c
+        M == OptMatrix(c)
+        cl == [r \in 1..Len(rec.paths) |-> PathToClause(c, M, rec.paths[r], rec.starts[r][1], rec.starts[r][2])]
+        bad == {r \in 1..Len(rec.paths) : cl[r] # "ok"}
+    IN IF bad = {} THEN TRUE ELSE Fail(rec.id, rec.routes[SetMin(bad)] \o ":" \o cl[SetMin(bad)])
+
+----------------------------------------------------------------------------
 JudgeRec(rec) ==
     CASE rec.kind = "dist" -> JudgeDist(rec)
       [] rec.kind = "agree" -> JudgeAgree(rec)
@@ -203,6 +225,7 @@ JudgeRec(rec) ==
       [] rec.kind = "laws" -> JudgeLaws(rec)
       [] rec.kind = "wps" -> JudgeWps(rec)
       [] rec.kind = "path" -> JudgePath(rec)
+      [] rec.kind = "pathto" -> JudgePathTo(rec)
 
 Verdict == lvl = 2 => JudgeRec(T[k])
 =============================================================================
